@@ -6,7 +6,10 @@
 WEAK(run_C01) WEAK(run_C02) WEAK(run_C05) WEAK(run_C06) WEAK(run_C07) WEAK(run_C08) WEAK(run_C09)
 WEAK(run_C10) WEAK(run_C11) WEAK(run_C12) WEAK(run_C13) WEAK(run_C15) WEAK(run_C16) WEAK(run_C18)
 
-extern "C" __attribute__((weak)) void wencry_verif_event(int, int, long, long) {}
+void (*g_event_cb)(int, int, long, long) = nullptr;
+extern "C" void wencry_verif_event(int kind, int id, long a, long b) {
+  if (g_event_cb) g_event_cb(kind, id, a, b);
+}
 
 int main(int argc, char **argv) {
   Ctx cx(argc, argv);
